@@ -6,7 +6,11 @@ use std::io::Write;
 use text_utils::data::loading::{train_data_generator_from_jsonl, GenerationStrategy, MultiTrainDataGenerator, TrainDataGenerator};
 
 fn tmp() -> String {
-    let d = format!("/verif/work/mg-{}", std::process::id());
+    // inside the run directory of this shard (removed by ./check with it); replays fall back to /verif/work
+    let d = match std::env::var("TU_HARNESS_TMP") {
+        Ok(root) => format!("{root}/mg"),
+        Err(_) => format!("/verif/work/mg-{}", std::process::id()),
+    };
     std::fs::create_dir_all(&d).ok();
     d
 }
